@@ -311,18 +311,58 @@ def expected_parts(case):
     return ','.join(out) if out else '-', parts
 
 
-def impl_make(case):
+class QRFacts:
+    """what the harness needs of a returned QRCode (picklable, filled in the worker process)"""
+    __slots__ = ('version', 'error', 'mask', 'mode', 'matrix', 'is_micro', 'designator', 'symsize', 'default_border_size')
+
+    def symbol_size(self):
+        return self.symsize
+
+
+def _impl_one(args):
+    content, kw = args
     try:
-        q = segno.make(case.content, **case.kw)
+        q = segno.make(content, **kw)
     except Exception as ex:  # noqa
-        case.exc = exc_name(ex)
-        case.extra['exc_text'] = str(ex)[:200]
+        return ('exc', exc_name(ex), str(ex)[:200])
+    f = QRFacts()
+    f.version, f.error, f.mask, f.mode, f.is_micro = q.version, q.error, q.mask, q.mode, q.is_micro
+    f.matrix = tuple(bytes(r) for r in q.matrix)
+    f.designator, f.symsize, f.default_border_size = q.designator, q.symbol_size(), q.default_border_size
+    return ('ok', f)
+
+
+def _apply_impl(case, r):
+    if r[0] == 'exc':
+        case.exc = r[1]
+        case.extra['exc_text'] = r[2]
         case.impl = f'err={case.exc}'
         return
+    q = r[1]
     case.qr = q
     v = MICRO.get(q.version, q.version)
     e = None if q.error is None else LEVELS[q.error]
     case.impl = f'ok=1 v={v} e={opt(e)} mask={q.mask} m={matrix_str(q.matrix)}'
+
+
+def impl_make(case):
+    _apply_impl(case, _impl_one((case.content, case.kw)))
+
+
+def impl_make_all(cases, workers=8):
+    """calls the real segno.make for every case; consecutive chunks go to worker processes (each worker
+    sees a contiguous call history)"""
+    if len(cases) < 300:
+        for c in cases:
+            impl_make(c)
+        return
+    import multiprocessing
+    ctx = multiprocessing.get_context('fork')
+    args = [(c.content, c.kw) for c in cases]
+    chunk = max(50, len(args) // (workers * 4))
+    with ctx.Pool(workers) as pool:
+        for c, r in zip(cases, pool.imap(_impl_one, args, chunksize=chunk)):
+            _apply_impl(c, r)
 
 
 def sym_line(idx, case, want_c06=True):
@@ -358,8 +398,9 @@ def sym_line(idx, case, want_c06=True):
 def sweep(cases, st, res, fields, want_c06=True, known_map=None, jobs=None, corr=True):
     """runs the cases; records correspondence diffs and judged violations for the verdict `fields`"""
     cases = list(cases)
-    for c in cases:
-        impl_make(c)
+    t_ = time.time()
+    impl_make_all(cases)
+    res.count('seconds:implementation', int(time.time() - t_))
     res.evaluations += len(cases)
     # correspondence with the model
     if corr and st.model_ok:
@@ -375,7 +416,9 @@ def sweep(cases, st, res, fields, want_c06=True, known_map=None, jobs=None, corr
                     res.corr_diffs.append(dict(call=cases[i].call(), impl=cases[i].impl[:200], model=f'err={want} (policy)'))
             except Exception as ex:  # noqa  malformed arguments: not modelled here (C14 harness)
                 cases[i].extra['unmodelled'] = repr(ex)[:100]
+        t_ = time.time()
         outs = run_lines_parallel(MODEL, lines, jobs)
+        res.count('seconds:model', int(time.time() - t_))
         for i, o in zip(idxs, outs):
             c = cases[i]
             c.model = o.split(' ', 1)[1] if ' ' in o else o
@@ -389,7 +432,9 @@ def sweep(cases, st, res, fields, want_c06=True, known_map=None, jobs=None, corr
             if c.qr is not None:
                 lines.append(sym_line(i, c, want_c06))
                 idxs.append(i)
+        t_ = time.time()
         outs = run_lines_parallel(JUDGE, lines, jobs)
+        res.count('seconds:judge', int(time.time() - t_))
         for i, o in zip(idxs, outs):
             c = cases[i]
             c.judge = o
